@@ -28,6 +28,12 @@ pub enum POp {
     PendingAcquire,
     PendingRelease(usize, bool),
     PendingLockCheck,
+    /// first step of an acquire of the robust set that ends with IsLocked: the implementation claims a cell
+    /// first and reads the lock indicator afterwards, so such an acquire may hold an index for a moment (and,
+    /// the set being locked for ever, never gives it back); an acquire that runs concurrently can therefore be
+    /// told OutOfIndices although every *completed* holder has released — the set is being locked at that very
+    /// moment, which the property allows ("fails only when all indices are genuinely taken or the set was locked")
+    TransientClaim,
     /// recovery of one index of the dead ("ghost") owner; a recover call is a sequence of these
     RecoverOne(usize),
     /// setup: the ghost owner acquires an index and dies
@@ -79,6 +85,8 @@ impl Spec for PoolSpec {
                 let becomes_locked = s.1 || s.0 == 0;
                 one(if becomes_locked == *locked { Some((s.0, becomes_locked)) } else { None })
             }
+            // stands for an Acquire(Out) that overlapped an acquire ending with IsLocked: no constraint, no effect
+            POp::TransientClaim => keep(vec![*s], ghost),
             POp::PendingAcquire => {
                 if s.1 {
                     return keep(vec![*s], ghost);
@@ -629,6 +637,7 @@ impl Harness for PoolHarness {
             let mut ops: Vec<POp> = Vec::new();
             let mut src: Vec<usize> = Vec::new(); // index into g.ops
             let mut second: Vec<bool> = Vec::new();
+            let mut excused_out = 0u64;
             for i in 0..n_ops {
                 let done = g.ret[i].is_some();
                 match (&g.ops[i], done) {
@@ -640,6 +649,11 @@ impl Harness for PoolHarness {
                         } else {
                             ops.push(POp::PendingRelease(*x, *lil)); src.push(i); second.push(false);
                         }
+                    }
+                    (POp::Acquire(AcqRes::Out), true) if two_step && (0..n_ops).any(|j| j != i && matches!(g.ops[j], POp::Acquire(AcqRes::Locked) | POp::Acquire(AcqRes::Out)) && matches!(g.ops[j], POp::Acquire(AcqRes::Locked)) && g.inv[j].stamp < g.ret[i].as_ref().unwrap().stamp && g.ret[j].as_ref().map(|r| r.stamp > g.inv[i].stamp).unwrap_or(true)) => {
+                        // see POp::TransientClaim: an OutOfIndices that overlaps an acquire ending with IsLocked
+                        excused_out += 1;
+                        ops.push(POp::TransientClaim); src.push(i); second.push(false);
                     }
                     (POp::Release(x, lil, locked), true) if two_step && *lil => {
                         ops.push(POp::Release(*x, false, false)); src.push(i); second.push(false);
@@ -672,7 +686,7 @@ impl Harness for PoolHarness {
                     Lin::Ok => {}
                     Lin::Inconclusive => inconclusive = true,
                     Lin::Violation => {
-                        let hist: Vec<String> = (0..n_ops).map(|i| format!("T{}:{:?}{}", g.thread_of[i], g.ops[i], if g.ret[i].is_none() { "(never returned)" } else { "" })).collect();
+                        let hist: Vec<String> = (0..n_ops).map(|i| format!("T{}:{:?}{}[{}..{}]", g.thread_of[i], g.ops[i], if g.ret[i].is_none() { "(never returned)" } else { "" }, g.inv[i].stamp, g.ret[i].as_ref().map(|r| r.stamp.to_string()).unwrap_or_else(|| "-".into()))).collect();
                         violation = viol("not-linearizable", format!("history has no linearization against the index-pool specification (cap {cap}): {hist:?}"));
                     }
                 }
